@@ -59,6 +59,16 @@ def run_suite():
         bad_total = bad if bad_total is None else [b for b in bad if b in bad_total]
         if not bad_total:
             break
+    if bad_total:
+        # the *_cmp tests read files written by other tests and race under parallel ctest (more so on a loaded machine):
+        # what still fails is run once more, serially
+        sh("ctest --test-dir _build --rerun-failed -j1 --timeout 900 --output-junit %s" % JUNIT, cwd=WT)
+        t = ET.parse(JUNIT).getroot()
+        ok_now = set()
+        for tc in t.iter("testcase"):
+            if tc.find("failure") is None and tc.find("error") is None and tc.get("status", "run") in ("run", "passed"):
+                ok_now.add(tc.get("name"))
+        bad_total = [b for b in bad_total if b not in ok_now]
     return bad_total
 
 
